@@ -649,6 +649,9 @@ func (c *rcComp) Run(args []string) string {
 		return c.mon
 	}
 	c.ret, c.mon = "-", "-"
+	if len(args) == 6 && args[0] == "new" && args[1] == "poll" {
+		return c.pollRun(args) // Close while Poll calls are in flight (rc_poll.go)
+	}
 	if len(args) == 4 && args[0] == "new" && args[1] == "gf" {
 		return c.gfRun(args) // client.NewImpl = getFirst over several client types (rc_gf.go)
 	}
@@ -1166,6 +1169,9 @@ func (c *rcComp) Gen(r *rand.Rand, tier string) []string {
 	if r.Intn(12) == 0 {
 		return gfGen(r) // getFirst over several client types (rc_gf.go)
 	}
+	if r.Intn(10) == 0 {
+		return rpGen(r) // Close while Poll calls are in flight (rc_poll.go)
+	}
 	for {
 		mode := []string{"rb", "rb", "rb", "rc", "rc", "b", "c"}[r.Intn(7)]
 		rec := mode == "rb" || mode == "rc"
@@ -1283,5 +1289,6 @@ func (c *rcComp) Exhaustive(tier string) [][]string {
 		}
 	}
 	out = append(out, gfExhaustive(tier)...) // getFirst over several client types (rc_gf.go)
+	out = append(out, rpExhaustive(tier)...) // Close while Poll calls are in flight (rc_poll.go)
 	return out
 }
